@@ -20,6 +20,16 @@ var out = bufio.NewWriterSize(os.Stdout, 1<<20)
 
 // emit writes one case line: "<op line> => <observed>".
 func emit(op string, observed string) {
+	// one case = one line: control bytes that slipped into an observed string (error texts quoting the
+	// input) must not break the line protocol
+	if strings.ContainsAny(observed, "\n\r\v\f\x00") {
+		observed = strings.Map(func(c rune) rune {
+			if c < 0x20 || c == 0x7f || c == 0x85 || c == 0xa0 {
+				return '?'
+			}
+			return c
+		}, observed)
+	}
 	out.WriteString(op)
 	out.WriteString(" => ")
 	out.WriteString(observed)
